@@ -1,12 +1,12 @@
 SPECIFICATION Spec
 CONSTANTS
-  KindNames = {"nested", "flat", "outer", "inner"}
+  KindNames = {"nested", "flat", "inner"}
   QFieldSeq <- FS5
   MaxA = 2
   MaxC = 2
   MaxB = 1
   MaxNodes = 3
-  L2Forms = {"conj-il", "must-i-not-l", "conj-cc"}
+  L2Forms = {"conj-il"}
   Ordered = FALSE
   Classes = {"core"}
   WithMin = FALSE
